@@ -187,9 +187,13 @@ def wire_rules(ctx, R, verbs=True):
                             return pol is (cp[1] == "NotIn")
                     # regex / any() forms
                     if isinstance(e, ast.Call) and call_name(e) in ("search", "match", "findall"):
-                        for a_ in e.args:
+                        pats = list(e.args)
+                        rc = e.func.value if isinstance(e.func, ast.Attribute) else None
+                        if isinstance(rc, ast.Call) and call_name(rc) == "compile" and rc.args:
+                            pats.append(rc.args[0])  # a pattern compiled in place (module constants are put back where they are read)
+                        for a_ in pats:
                             v = const_value(ctx.program, fmt, a_)
-                            if isinstance(v, bytes) and ch.decode("latin-1") in rx_chars(v):
+                            if isinstance(v, bytes) and ch.decode("latin-1") in rx_chars(v) and call_name(e) == "search":
                                 return pol is False
                     return False
                 if not all(cfg.guarded(nd, absent) for nd in nodes):
@@ -251,7 +255,16 @@ def wire_rules(ctx, R, verbs=True):
     head = [n for n in cfg.nodes_for(loops[0]) if n.kind == "loop"][0]
     enodes = [x for st in sinks + direct for x in cfg.nodes_for(st)]
     body_entry = [m for m, _ in head.succ if m.kind == "fact" and m.info == "for-next"]
-    skip = head in cfg.reach(body_entry, avoid=enodes, exc=False)
+    # an argument that IS None may be left out (an optional argument the caller has nothing to put in): the way round the emission
+    # sites that starts at a true `<var> is None` test is not a lost argument
+    def none_fact(fc):
+        e, pol = fact_atom(fc)
+        cp = cmp_parts(e)
+        return bool(cp and isinstance(cp[0], ast.Name) and cp[0].id == var and isinstance(cp[2], ast.Constant) and cp[2].value is None
+                    and ((cp[1] == "Is" and pol is True) or (cp[1] == "IsNot" and pol is False)))
+    none_skips = cfg.facts(none_fact)
+    skip = head in cfg.reach(body_entry, avoid=enodes + none_skips, exc=False)
+    ctx.extra["formatter_skips_none"] = bool(none_skips)
     twice = any(any(e2 in cfg.reach([m for m, _ in e1.succ], avoid=[head], exc=False) for e2 in enodes) for e1 in enodes)
     if skip:
         ctx.violation("W7", fmt, "argument-skipped", "an iteration of the formatter can end without emitting anything: that argument vanishes "
@@ -337,6 +350,8 @@ def wire_rules(ctx, R, verbs=True):
             else:
                 for el in a.elts:
                     k = arg_kind(ctx, R, f, el)
+                    if k is None and isinstance(el, ast.Constant) and el.value is None and ctx.extra.get("formatter_skips_none"):
+                        k = "absent optional argument (the formatter leaves None out)"
                     if k is None:
                         ctx.violation("W5", f, "arg-form:%s:%s" % (verb, norm(el)), "argument %s of %s is neither encoded text, a built "
                                       "literal, an int parameter nor constant/base64 bytes" % (norm(el), verb), node=el)
@@ -395,12 +410,34 @@ def w1(ctx, R):
         a = c.args[0] if c.args else None
         if line(a):
             continue
+        if isinstance(a, ast.Call) and isinstance(a.func, ast.Name) and a.func.id in ("bytes", "bytearray", "memoryview") and len(a.args) == 1:
+            a = a.args[0]  # a copy / view of the accumulator
         if isinstance(a, ast.Name) or (isinstance(a, ast.Attribute) and isinstance(a.value, ast.Name) and a.value.id == snd.params[0]):
             t = norm(a)
             sets = [x for x in walk_no_nested(snd.node) if isinstance(x, ast.Assign) and any(norm(tg) == t for tg in x.targets)]
             adds = [x for x in walk_no_nested(snd.node) if isinstance(x, ast.AugAssign) and norm(x.target) == t]
+
+            def crlf_after_line(x):
+                # `acc += line` immediately followed by `acc += CRLF`
+                if const_value(ctx.program, snd, x.value) != b"\r\n":
+                    return False
+                par = getattr(x, "_parent", None)
+                for fld in ("body", "orelse", "finalbody"):
+                    lst = getattr(par, fld, None)
+                    if isinstance(lst, list) and x in lst and lst.index(x) > 0:
+                        prev = lst[lst.index(x) - 1]
+                        return isinstance(prev, ast.AugAssign) and norm(prev.target) == t and prev in adds
+                return False
+
+            def line_before_crlf(x):
+                par = getattr(x, "_parent", None)
+                for fld in ("body", "orelse", "finalbody"):
+                    lst = getattr(par, fld, None)
+                    if isinstance(lst, list) and x in lst and lst.index(x) + 1 < len(lst):
+                        return crlf_after_line(lst[lst.index(x) + 1])
+                return False
             forms = all(line(x.value) or const_value(ctx.program, snd, x.value) == b"" for x in sets) and all(
-                isinstance(x.op, ast.Add) and line(x.value) for x in adds) and (sets or adds)
+                isinstance(x.op, ast.Add) and (line(x.value) or crlf_after_line(x) or line_before_crlf(x)) for x in adds) and (sets or adds)
             if not forms:
                 ctx.violation("W1", snd, "no-crlf:%s" % norm(a), "the write accumulator %s is not built from <line> + CRLF pieces only" % t, node=c)
                 continue
@@ -411,8 +448,27 @@ def w1(ctx, R):
                 users = [x for st in adds for x in cfgs.nodes_for(st)] + cfgs.node_containing(c)
                 fresh = [st for st in sets if not any(isinstance(y, (ast.Attribute, ast.Name)) and norm(y) == t for y in ast.walk(st.value))]
                 fnodes = [x for st in fresh for x in cfgs.nodes_for(st)]
+                # ... or it is emptied after every use, whatever happened: in the `finally` of the try that holds the write, and it
+                # starts empty (constructor)
+                def empties(x):
+                    if isinstance(x, ast.Delete):
+                        return any(isinstance(tg, ast.Subscript) and norm(tg.value) == t and isinstance(tg.slice, ast.Slice)
+                                   and tg.slice.lower is None and tg.slice.upper is None for tg in x.targets)
+                    if isinstance(x, ast.Expr) and isinstance(x.value, ast.Call) and isinstance(x.value.func, ast.Attribute) \
+                            and x.value.func.attr == "clear" and norm(x.value.func.value) == t:
+                        return True
+                    return isinstance(x, ast.Assign) and any(norm(tg) == t for tg in x.targets) and const_value(ctx.program, snd, x.value) in (b"", bytearray())
+                in_finally = any(isinstance(tr_, ast.Try) and any(contains(b_, c) for b_ in tr_.body) and any(empties(x) for x in tr_.finalbody)
+                                 for tr_ in walk_no_nested(snd.node))
+                init = R.methods.get("__init__")
+                starts_empty = init is not None and any(
+                    isinstance(x, ast.Assign) and any(norm(tg).split(".")[-1] == t.split(".")[-1] for tg in x.targets) and (
+                        const_value(ctx.program, init, x.value) == b"" or (isinstance(x.value, ast.Call) and call_name(x.value) in ("bytearray", "bytes")
+                                                                             and not x.value.args)) for x in walk_no_nested(init.node))
                 if fnodes and all(cfgs.dominates(fnodes, u, exc=False) for u in users):
                     ctx.holds("W1", "%s: the instance-level accumulator %s is emptied before it is filled" % (snd.qualname, t))
+                elif in_finally and starts_empty:
+                    ctx.holds("W1", "%s: the instance-level accumulator %s starts empty and is emptied in the finally clause of every write" % (snd.qualname, t))
                 else:
                     ctx.violation("W1", snd, "stale-write-buffer", "the sender collects its output in %s, which outlives the call, and does not "
                                   "empty it before filling it: when a write raises, the unsent command is sent together with the next one" % t,
@@ -425,9 +481,38 @@ def w1(ctx, R):
     fcalls = self_calls(snd, fmt.name)
     if not fcalls:
         raise AnalysisError("W1", "sender does not call the formatter")
+    # ... and what it returns goes out as it is: nothing strips / replaces / recases the assembled line afterwards
+    tainted = set()
+    grew = True
+    while grew:
+        grew = False
+        for a in walk_no_nested(snd.node):
+            if isinstance(a, (ast.Assign, ast.AugAssign)):
+                tg = a.targets if isinstance(a, ast.Assign) else [a.target]
+                src = a.value
+                if any(x in fcalls for x in ast.walk(src) if isinstance(x, ast.Call)) or any(
+                        isinstance(x, ast.Name) and x.id in tainted for x in ast.walk(src)):
+                    for t_ in tg:
+                        if isinstance(t_, ast.Name) and t_.id not in tainted:
+                            tainted.add(t_.id)
+                            grew = True
+    for c in walk_no_nested(snd.node):
+        if isinstance(c, ast.Call) and isinstance(c.func, ast.Attribute) and c.func.attr in (
+                "strip", "rstrip", "lstrip", "replace", "lower", "upper", "split", "splitlines", "expandtabs", "translate", "title", "capitalize") \
+                and (any(isinstance(x, ast.Name) and x.id in tainted for x in ast.walk(c.func.value))
+                     or any(x in fcalls for x in ast.walk(c.func.value) if isinstance(x, ast.Call))):
+            ctx.violation("W1", snd, "line-altered:%s" % c.func.attr, "the assembled command line is passed through .%s(): bytes that belong to "
+                          "an argument (the blanks ending a literal, a tab, a case) are changed after the formatter produced them" % c.func.attr,
+                          node=c, witness="putscript('x', 'keep;  ') announces {7+} and sends 5 octets: the next command is read as script text")
     args_param = snd.params[2] if len(snd.params) > 2 else None
+    def is_args(e):
+        if isinstance(e, ast.Name) and e.id == args_param:
+            return True
+        # `args or []`: the list itself, or nothing
+        return isinstance(e, ast.BoolOp) and isinstance(e.op, ast.Or) and len(e.values) == 2 and is_args(e.values[0]) \
+            and isinstance(e.values[1], (ast.List, ast.Tuple)) and not e.values[1].elts
     for c in fcalls:
-        if not (c.args and isinstance(c.args[0], ast.Name) and c.args[0].id == args_param):
+        if not (c.args and is_args(c.args[0])):
             ctx.violation("W1", snd, "formatter-arg", "the formatter is not applied to the sender's argument list", node=c)
     # no other use of the args parameter reaches the wire
     for nnode in walk_no_nested(snd.node):
